@@ -148,7 +148,10 @@ func NewServerWithOptions(laddr string, opt Options) (*Server, error) {
 	// Init from storage.
 	for _, tbl := range s.s.storage.GetTables() {
 		rows := s.s.storage.Open(tbl)
-		s.s.tables[tbl.Name] = newTable(tbl, rows)
+		t := newTable(tbl, rows)
+		// Finish a family drop that was interrupted after its definition had been persisted.
+		t.purgeFamiliesNotIn(t.cols())
+		s.s.tables[tbl.Name] = t
 	}
 
 	btapb.RegisterBigtableInstanceAdminServer(s.srv, s.s)
@@ -313,6 +316,7 @@ func (s *server) ModifyColumnFamilies(ctx context.Context, req *btapb.ModifyColu
 		}
 	}
 
+	var dropped []string
 	for _, mod := range req.Modifications {
 		if create := mod.GetCreate(); create != nil {
 			if _, ok := cfs[mod.Id]; ok {
@@ -326,15 +330,7 @@ func (s *server) ModifyColumnFamilies(ctx context.Context, req *btapb.ModifyColu
 				return nil, fmt.Errorf("can't delete unknown family %q", mod.Id)
 			}
 			delete(cfs, mod.Id)
-
-			// Purge all data for this column family
-			tbl.rows.Ascend(func(r *btpb.Row) bool {
-				r, changed := scrubRow(r, tbl.cols())
-				if changed {
-					tbl.rows.ReplaceOrInsert(r)
-				}
-				return true
-			})
+			dropped = append(dropped, mod.Id)
 		} else if modify := mod.GetUpdate(); modify != nil {
 			cf, ok := cfs[mod.Id]
 			if !ok {
@@ -346,8 +342,40 @@ func (s *server) ModifyColumnFamilies(ctx context.Context, req *btapb.ModifyColu
 		}
 	}
 
+	// Persist the new definition before purging the dropped families' cells: if the process dies in
+	// between, the purge is completed when the table is next opened, instead of leaving rows without
+	// the cells of a family that is still listed. Only a family that this request dropped and then
+	// created again must lose its old cells first, because the new definition lists it.
+	keep := make(map[string]*btapb.ColumnFamily, len(cfs))
+	for id, cf := range cfs {
+		keep[id] = cf
+	}
+	recreated := false
+	for _, id := range dropped {
+		if _, ok := keep[id]; ok {
+			delete(keep, id)
+			recreated = true
+		}
+	}
+	if recreated {
+		tbl.purgeFamiliesNotIn(keep)
+	}
 	s.storage.SetTableMeta(tbl.def)
+	if len(dropped) > 0 {
+		tbl.purgeFamiliesNotIn(cfs)
+	}
 	return proto.Clone(tbl.def).(*btapb.Table), nil
+}
+
+// purgeFamiliesNotIn removes all cells of families that are not in cols.
+func (t *table) purgeFamiliesNotIn(cols map[string]*btapb.ColumnFamily) {
+	t.rows.Ascend(func(r *btpb.Row) bool {
+		r, changed := scrubRow(r, cols)
+		if changed {
+			t.rows.ReplaceOrInsert(r)
+		}
+		return true
+	})
 }
 
 func (s *server) DropRowRange(ctx context.Context, req *btapb.DropRowRangeRequest) (*emptypb.Empty, error) {
